@@ -36,6 +36,10 @@ def run(rec, cfg):
 
     MP.attach_parser("C10", {"closure", "history"})
     rng = cfg.rng("c10")
+    from ..workloads import interrupted as _INT
+
+    if cfg.shard == 6 % cfg.nshards:
+        _INT.parser_cases(rec, "C10")      # a failed parse of the most abrupt kind: interrupted at an arbitrary line
     corp = WT.corpus()
     from ..workloads import histories as W8b
 
@@ -177,6 +181,11 @@ def outcome(p, q):
 
 
 def replay(rec, cfg, w):
+    if "failpoint" in w:
+        from ..workloads import interrupted as _INT
+
+        _INT.parser_cases(rec, "C10")      # deterministic: the whole family of cases is run again
+        return
     if w.get("marathon") or any(isinstance(h, (list, tuple)) and len(h) > 1 and str(h[1]).endswith("w + 1") for h in (w.get("history") or [])[-50:]):
         from ..workloads import histories as _W9
 
